@@ -87,6 +87,7 @@ func c08scenario(c c08cfg) *explore.Scenario {
 		finalCount := -1
 		var tail []readRes
 		closed := false
+		var firstDL time.Duration // "future-zero-future": the first, short deadline (a reader it released may return at any later time)
 		deadlineChanged := false
 		var dlSet time.Duration // virtual instant of the deadline in force (0 = none)
 		body := func() {
@@ -155,7 +156,10 @@ func c08scenario(c c08cfg) *explore.Scenario {
 						_ = b.SetReadDeadline(zzvsched.Base.Add(1))
 						deadlineChanged = true
 					} else {
-						_ = b.SetReadDeadline(zzvsched.Now().Add(time.Hour))
+						// short enough to fire: its callback may still be outstanding during the next calls
+						dl1 := zzvsched.Now().Add(5 * time.Millisecond)
+						firstDL = dl1.Sub(zzvsched.Base)
+						_ = b.SetReadDeadline(dl1)
 						_ = b.SetReadDeadline(time.Time{})
 					}
 					dl := zzvsched.Now().Add(10 * time.Millisecond)
@@ -194,6 +198,9 @@ func c08scenario(c c08cfg) *explore.Scenario {
 					timeouts++
 					if dlSet == 0 && c.deadline == "" {
 						return "", &explore.Violation{Msg: fmt.Sprintf("reader %d timed out although no deadline was ever set", i), Sig: "C08 spurious-timeout"}
+					}
+					if c.deadline == "future-zero-future" && firstDL != 0 && r.at >= firstDL {
+						break // released by the first (5 ms) deadline before it was replaced
 					}
 					if (c.deadline == "future" || c.deadline == "future-zero-future" || (c.deadline == "past-then-future" && !deadlineChanged)) && r.at < dlSet {
 						return "", &explore.Violation{Msg: fmt.Sprintf("reader %d timed out at %v before the deadline %v", i, r.at, dlSet), Sig: "C08 early-timeout"}
